@@ -108,6 +108,7 @@ impl Number {
             .unit
             .iter()
             .map(|(k, &power)| (k.clone(), power * exp as i64))
+            .filter(|&(_, power)| power != 0)
             .collect::<Dimensionality>();
         Number {
             value: self.value.pow(exp),
